@@ -49,6 +49,8 @@ def plan(tier, seed):
     tasks += [dict(op="estimator", est=e, weight=4) for e in EST_SPECS]
     tasks += [dict(op="sqrt_path", weight=2)]
     tasks += [dict(op="est_path", est=e, weight=3) for e in EST_PATH]
+    tasks += [dict(op="acc_buffers", solver=sn, part=k, weight=3) for sn in ("AndersonCD", "GroupBCD", "MultiTaskBCD") for k in range(2)]
+    tasks += [dict(op="acc_buffers", solver="AndersonCD-default", part=k, weight=3) for k in range(2)]
     return tasks
 
 
@@ -586,7 +588,55 @@ def run_est_path(task, ctx):
     ctx.sample(dict(op="est_path", est=name, kws=len(est_path_kws(name, 3))))
 
 
+# ---------------------------------------------------------------------------------- (e) buffers under moving working sets
+
+def exec_buffer_node(comp):
+    """One solve from user-supplied (w, Xw) buffers: on return the buffer equals X w; a convergence claim meets the certificate."""
+    from mc import comp as C
+    r = C.execute(comp)
+    out = []
+    if r["status"] != "ok":
+        return [("exception", r["exc"]["type"] + ": " + r["exc"]["message"][:80], "solve succeeds")], None
+    prob = C.problem_of(comp)
+    w = r["w"]
+    u = RC.linear_predictor(prob, w)
+    err = float(np.max(np.abs(u - r["Xw_buf"])))
+    if err > 1e-9 * (1 + float(np.max(np.abs(u)))):
+        out.append(("fit_buffer_inconsistent", err, "== X w"))
+    tol = C.tol_of(comp["solver"])
+    if r["stop_crit"] <= tol:
+        viol = C.certificate(comp, w)[0]
+        scale = 1.0 + float(np.abs(prob["X"]).sum()) * (1.0 + float(np.abs(prob["y"]).max()))
+        if viol > tol * (1 + 1e-6) + 1e-10 * scale:
+            out.append(("certificate_invalid", dict(stop=r["stop_crit"], recomputed=viol), f"<= {tol}"))
+    return out, w
+
+
+def run_acc_buffers(task, ctx):
+    from mc.drivers import c03
+    sn = task["solver"]
+    if sn == "AndersonCD-default":
+        comps = c03.ar_family_comps(task["part"], ctx.tier)
+    else:
+        comps = (dict(c, solver=dict(c["solver"], kw=dict(c["solver"]["kw"], max_iter=k)))
+                 for c in c03.acc_family_comps(dict(solver=sn, part=task["part"]), ctx.tier) for k in (2, 3, 4, 5, 7))
+    n = 0
+    for comp in comps:
+        v, w = exec_buffer_node(comp)
+        n += 1
+        ctx.states += 1
+        ctx.transitions += 1
+        ctx.count("buffer_nodes")
+        ctx.obs(w, nontrivial=w is not None and bool(np.any(w)))
+        for kind, got, exp in v:
+            ctx.violation(f"solver:{sn.split('-')[0]}.buffers", kind, dict(op="buffer_node", comp=comp), got, exp,
+                          where=dict(solver=sn.split("-")[0], family="correlated"))
+    ctx.sample(dict(op="acc_buffers", solver=sn, nodes=n))
+
+
 def run(task, ctx):
+    if task["op"] == "acc_buffers":
+        return run_acc_buffers(task, ctx)
     if task["op"] == "est_path":
         return run_est_path(task, ctx)
     if task["op"] == "sqrt_path":
@@ -601,6 +651,9 @@ def run(task, ctx):
 def replay(params):
     from mc import comp as C
     from mc.core import fhex
+    if params["op"] == "buffer_node":
+        v, w = exec_buffer_node(params["comp"])
+        return dict(violated=bool(v), kinds=[x[0] for x in v], detail=fhex([[x[0], x[1], x[2]] for x in v[:6]]), w=fhex(w))
     if params["op"] == "est_path":
         v, coefs = exec_est_path(params)
         return dict(violated=bool(v), kinds=[x[0] for x in v], detail=fhex([[x[0], x[1], x[2]] for x in v[:6]]), coefs=fhex(coefs))
@@ -647,7 +700,9 @@ def describe(tier, agg):
             "grid, singletons, a grid starting above the critical value and a repeated value, with and without w_init (multitask: dense, "
             "first-task-only-zero rows and row-sparse starts), SqrtLasso.path on the same grids, and estimator.path() of Lasso / "
             "WeightedLasso / ElasticNet / MCPRegression / MultiTaskLasso over their constructor arguments (positive, weights, l1_ratio, "
-            "intercept) x grids x coef_init judged against the documented problem at each alpha; (c) estimator "
+            "intercept) x grids x coef_init judged against the documented problem at each alpha; the extrapolating solvers on C03's "
+            "correlated families (5x6 / 8x12, p0 in {1,2,3}) and AndersonCD at default tolerance on AR(0.95 / 0.99) 10x30 / 20x40 designs: "
+            "model-fit buffer == X w on return and certificate on every convergence claim; (c) estimator "
             "histories fit -> (set_params -> fit)^d, d <= 2 (3), warm_start=True, over all parameter moves; oracles: certificate of "
             "the current problem, Xw buffer consistency, optimality-gap theorem against the cold start / a fresh estimator")
     return rule, {"converged_ops": 500, "path_calls": 100, "estimator_histories": 100}
